@@ -132,7 +132,6 @@ LINE2 = [
     ('line:query_env.py,query_execute.py', 'shared', ('bal2', 'bal2')),
     ('line:query_env.py,query_execute.py', 'different', ('bal2', 'bal2')),
     ('line:compiler.py', 'shared', ('pos2', 'pos2')),
-    ('line:compiler.py', 'shared', ('pos1', 'pos1')),
 ]
 
 _ENV = {}
@@ -444,6 +443,30 @@ def count_points(mode, sid, seed):
     return best
 
 
+def quick_triples(triples):
+    """Deterministic subset for the quick tier: every (a,a,a), every (a,a,next(a)), a greedy cover so that every
+    pair of different statements meets in at least one triple of three different statements, every 20th of the rest."""
+    chosen = []
+    covered = set()
+    nxt = {a: IDS[(i + 1) % len(IDS)] for i, a in enumerate(IDS)}
+    for j, t in enumerate(triples):
+        kinds = len(set(t))
+        take = kinds == 1 or j % 20 == 0
+        if kinds == 2:
+            a = max(t, key=t.count)
+            b = [x for x in t if x != a][0]
+            take = take or b == nxt[a]
+        if kinds == 3:
+            pairs3 = {frozenset(p) for p in itertools.combinations(t, 2)}
+            if not pairs3 <= covered:
+                take = True
+        if take:
+            chosen.append(t)
+            if kinds == 3:
+                covered |= {frozenset(p) for p in itertools.combinations(t, 2)}
+    return chosen
+
+
 def plan(ctx):
     """-> list of Item specs (tuples), big ones split in sub-shards of roughly equal size."""
     seed = ctx.seed
@@ -458,8 +481,7 @@ def plan(ctx):
     pairs = list(itertools.combinations_with_replacement(IDS, 2))
     triples = list(itertools.combinations_with_replacement(IDS, 3))
     if ctx.quick:
-        # every statement meets every other in some triple; each triple class (aaa, aab, abc) is present
-        triples = [t for j, t in enumerate(triples) if len(set(t)) == 1 or j % 5 == 0]
+        triples = quick_triples(triples)
     for config in CONFIGS:
         for ids in pairs:
             add('yield', config, ids, None, sched.interleavings(*[pts[s] + 1 for s in ids]), 600)
@@ -532,6 +554,39 @@ def replay(case):
     return vs
 
 
+def free_running_smoke(ctx, rounds=3):
+    """Unscheduled real threads released together (point() is a no-op for them).  Decides nothing: with
+    the GIL's 5 ms switch interval a sub-millisecond query is almost never preempted, which is exactly why the
+    controlled scheduler is needed.  Reported only as a count."""
+    import threading
+    runs = deviations = 0
+    for config in CONFIGS:
+        for ids in itertools.combinations_with_replacement(IDS, 2):
+            item = Item('yield', config, ids, None, ctx.seed)
+            acceptable, _ = item.serial()
+            for _ in range(rounds):
+                bodies = item.world()
+                res = [None] * len(bodies)
+                gate = threading.Barrier(len(bodies))
+
+                def work(i):
+                    gate.wait(10)
+                    try:
+                        res[i] = bodies[i]()
+                    except Exception as exc:
+                        res[i] = sched.Exc(exc)
+                ths = [threading.Thread(target=work, args=(i,), daemon=True) for i in range(len(bodies))]
+                for t in ths:
+                    t.start()
+                for t in ths:
+                    t.join(30)
+                    if t.is_alive():
+                        raise sched.HarnessError('free-running smoke thread did not finish')
+                runs += 1
+                deviations += any(okey(r) not in acceptable[i] for i, r in enumerate(res))
+    return {'runs': runs, 'runs_deviating_from_serial': deviations}
+
+
 def run(ctx):
     facts = sched.selftest()
     env(ctx.seed)
@@ -540,6 +595,8 @@ def run(ctx):
     if threading.active_count() != 1:
         raise sched.HarnessError('threads alive before forking the workers')
     total = run_shards(shard_fn, ctx.jobs, specs, nshards=max(1, min(len(specs), ctx.jobs * 8)))
+
+    smoke = free_running_smoke(ctx)
 
     violations = []
     best = {}
@@ -610,6 +667,7 @@ def run(ctx):
         'confirm_replays': total.n['confirm_replays'],
         'deadlocks': total.n['deadlocks'],
         'history_dependent_tuples': sorted('%s:%s' % (c, '+'.join(i)) for c, i in total.sets.get('history_dependent', ())),
+        'free_running_smoke_test_decides_nothing': smoke,
         'explorer_selftest': {k: list(v) if isinstance(v, tuple) else v for k, v in facts.items()},
         'configurations': CONFIGS,
         'samples': samples,
